@@ -220,3 +220,45 @@ Theorem c16_clear_nofile_iff :
   forall fs cfg, rpc_clear_main fs cfg = CFault NO_FILE <-> no_log fs cfg.
 Proof. exact clear_nofile_iff. Qed.
 Print Assumptions c16_clear_nofile_iff.
+
+(* ---- RPC layer on an existing file: every outcome, and the known finding ---- *)
+Theorem c16_rpc_read_valid :
+  forall c off len d, read_file c off len = RData d -> utf8_valid d = true ->
+    rpc_read_log (Some c) off len = RValue d.
+Proof. exact rpc_read_valid. Qed.
+Print Assumptions c16_rpc_read_valid.
+
+Theorem c16_rpc_read_outcomes :
+  forall c off len,
+  match rpc_read_log (Some c) off len with
+  | RValue d => read_file c off len = RData d /\ utf8_valid d = true
+  | RFault f => f = BAD_ARGUMENTS /\ read_file c off len = RBadArgs
+  | RUndecodable => exists d, read_file c off len = RData d /\ utf8_valid d = false
+  end.
+Proof. exact rpc_read_outcomes. Qed.
+Print Assumptions c16_rpc_read_outcomes.
+
+Theorem c16_rpc_read_succeeds_refuted :
+  exists c off len, rpc_read_log (Some c) off len = RUndecodable.
+Proof. exact rpc_read_succeeds_refuted. Qed.
+Print Assumptions c16_rpc_read_succeeds_refuted.
+
+Theorem c16_rpc_tail_outcomes :
+  forall c off len,
+  let '(d, o, v) := tail_file c off len in
+  rpc_tail_log (Some c) off len = if utf8_valid d then TValue d o v else TUndecodable.
+Proof. exact rpc_tail_outcomes. Qed.
+Print Assumptions c16_rpc_tail_outcomes.
+
+(* ---- the response stays open -------------------------------------------- *)
+Theorem c16_stream_stays_open :
+  forall chunks segs, Forall (fun d => d <> []) chunks -> concat segs = encode_open chunks ->
+    client_feed segs = idle chunks.
+Proof. exact stream_stays_open. Qed.
+Print Assumptions c16_stream_stays_open.
+
+Theorem c16_stream_terminated :
+  forall chunks segs, Forall (fun d => d <> []) chunks -> concat segs = encode chunks ->
+    pt (client_feed segs) = PTrailer.
+Proof. exact stream_terminated. Qed.
+Print Assumptions c16_stream_terminated.
